@@ -59,121 +59,26 @@ READER_BAD = {
 
 
 def check_reader(ctx, F, A):
-    """DecoderReader::read as a protocol monitor over ghost state kept in the abstract memory (so it survives loop joins and
-    does not depend on how the loop is written):
-        0 start / 1 last push said Ok(false) / 2 last push said Ok(true) / 3 byte read, not yet pushed / 4 push said Err / 5 source error
-    read_byte needs state 0|1, _push_byte needs 3 and the byte just read, borrow_buf needs 2, reset needs 5; Ok(x) is returned
-    only in state 2 with x the borrowed buffer, Err(DecodeErr(e)) only in state 4 with the decoder's e, Err(IoErr) only in 5."""
-    ip = A.ip
-    b = body_of(F, RD, "read")
-    G = ("G", "c15-st")
-
-    def bad(st, code):
-        st.ghost["c15-bad"] = max(st.ghost.get("c15-bad", 0), code)
-
-    def gconst(st):
-        v = st.mem.get(G)
-        return st.const_of(v.lin) if isinstance(v, VInt) else None
-
-    def on_res(ip_, frame, bb, t, callee, args, outs):
-        nm = short(callee_key(callee, frame.env))
-        if nm not in ("read_byte", "_push_byte", "borrow_buf", "reset"):
-            return
-        new = []
-        for (s2, val) in outs:
-            if G not in s2.mem:
-                new.append((s2, val))
-                continue
-            if nm == "read_byte":
-                lo, hi = s2.interval(s2.mem[G].lin)
-                if not (lo is not None and lo >= 0 and hi is not None and hi <= 1):
-                    bad(s2, 1)
-                for s3, var, pay in split_enum(ip_, s2, val, "read_byte result"):
-                    s3.mem[G] = cint(3 if var == 0 else 5, 8, False)
-                    if var == 0:
-                        s3.ghost["c15-byte"] = pay[0]
-                    new.append((s3, VEnum(val.defn, Lin.const(var), {var: pay})))
-            elif nm == "_push_byte":
-                if gconst(s2) != 3:
-                    bad(s2, 2)
-                elif args[1] != s2.ghost.get("c15-byte"):
-                    bad(s2, 3)
-                for s3, var, pay in split_enum(ip_, s2, val, "push result"):
-                    if var == 1:
-                        s3.mem[G] = cint(4, 8, False)
-                        s3.ghost["c15-err"] = pay[0]
-                        new.append((s3, VEnum(val.defn, Lin.const(1), {1: pay})))
-                        continue
-                    bv = pay[0]
-                    for truth in (False, True):
-                        for s4 in (ip_.branch(s3, bv.e, truth) if isinstance(bv, VBool) else []):
-                            s4.mem[G] = cint(2 if truth else 1, 8, False)
-                            new.append((s4, VEnum(val.defn, Lin.const(0), {0: (TRUE if truth else FALSE,)})))
-            elif nm == "borrow_buf":
-                if gconst(s2) != 2:
-                    bad(s2, 4)
-                s2.ghost["c15-buf"] = val
-                new.append((s2, val))
-            else:
-                if gconst(s2) != 5:
-                    bad(s2, 5)
-                new.append((s2, val))
-        outs[:] = new
-
-    ip.on_call_result.append(on_res)
-    try:
-        st0 = ip.new_state()
-        st0.mem[G] = cint(0, 8, False)
-        ps = paths(A, F, b, opaque_components(F), st=st0)
-    finally:
-        ip.on_call_result.remove(on_res)
-    kinds = set()
-    for p in ps:
-        st = p["st"]
-        var, pay = enum_variant(F, st, p["ret"])
-        ctx.count("R-C15-DRIVER")
-        g = gconst(st)
-        code = st.ghost.get("c15-bad", 0)
-        ok, why = True, ""
-        if var == "Ok" or (var == "Err" and enum_variant(F, st, pay[0])[0] == "DecodeErr"):
-            kinds.add("byte")
-        elif var == "Err" and enum_variant(F, st, pay[0])[0] == "IoErr":
-            kinds.add("source-error")
-        if code:
-            ok, why = False, READER_BAD[code]
-        elif var == "Ok":
-            kinds.add("byte")
-            if not (g == 2 and pay[0] == st.ghost.get("c15-buf")):
-                ok, why = False, "a complete transmission must be returned as the decoder's whole buffer (borrow_buf), and only after the decoder answered Ok(true)"
-        elif var == "Err":
-            ev2, ep = enum_variant(F, st, pay[0])
-            if ev2 == "DecodeErr":
-                kinds.add("byte")
-                if not (g == 4 and ep[0] == st.ghost.get("c15-err")):
-                    ok, why = False, "a decoder error is not forwarded unmodified as ReadDecodedError::DecodeErr"
-            elif ev2 == "IoErr":
-                kinds.add("source-error")
-                if g != 5:
-                    ok, why = False, "an I/O error is reported although the source returned a byte"
-            else:
-                ok, why = False, "unexpected error variant %s" % ev2
-        else:
-            ok, why = False, "result of unknown shape"
-        ctx.oblig(ok)
-        if len(ctx.samples) < 4:
-            ctx.sample({"driver": "DecoderReader::read", "monitor_state_at_return": g, "returns": var, "faithful": ok})
-        if not ok:
-            viol(ctx, b, why[:40], "DecoderReader::read: " + why)
-    if kinds != {"byte", "source-error"}:
-        viol(ctx, b, "coverage", "DecoderReader::read: expected byte paths and source-error paths, saw %r" % kinds)
-    # (no separate "has a loop" rule: nothing can be returned in monitor state 1 = Ok(false), so the byte loop must continue,
-    #  wherever it is written)
+    """DecoderReader::read (and next / read_nb / next_nb, which need not go through read) under the protocol monitor of
+    readermon.py: the bytes of the source reach the decoder one by one, unmodified and in order, and what is returned is the
+    decoder's answer (whole buffer / its error) or the source's error - however the byte loop is written and layered."""
+    from . import readermon
+    fns = ["read", "next"] + [n for n in ("read_nb", "next_nb") if any(b.get("name") == n and (b.get("impl_self_ty") or {}).get("def") == RD
+                                                                        for b in F.bodies.values())]
+    for fn in fns:
+        rs = readermon.check(ctx, F, A, fn, "R-C15-DRIVER", lambda kind: "R-C15-DRIVER")
+        if fn == "read" and len(ctx.samples) < 4:
+            for r in rs[:3]:
+                ctx.sample({"driver": "DecoderReader::read", "monitor_state_at_return": r["g"], "returns": enum_variant(F, r["st"], r["ret"])[0],
+                            "protocol_violation": r["bad"]})
 
 
 def check_iterator(ctx, F, A):
     ip = A.ip
     b = body_of(F, ITER, "next")
     fi = [f["name"] for f in F.adts[ITER]["variants"][0]["fields"]]
+    if "done" not in fi:
+        raise AnchorMissing("DecodeIterator has no `done` flag (fields %r)" % (fi,))
     i_done = fi.index("done")
     ps = paths(A, F, b, opaque_components(F))
     saw = set()
@@ -483,12 +388,13 @@ def check_generic(ctx, F):
                 if nm.startswith("transport::decode::Decoder::<B>::") and nm.split("::")[-1] in ("_push_byte", "push_byte", "finalize", "reset"):
                     callers.setdefault(nm.split("::")[-1], set()).add(b["def"])
     ctx.count("R-C15-SITES", sum(len(v) for v in callers.values()))
+    # the four DecoderReader entry points are each analysed under the reader protocol monitor with their private helpers inlined
+    rd_entries = {"transport::decoder_reader::DecoderReader::<B, R>::" + n for n in ("read", "next", "read_nb", "next_nb")}
     expected = {
-        "_push_byte": {"transport::decode::Decoder::<B>::push_byte", "transport::decode::DecodeIterator::<B, I>::next",
-                       "transport::decoder_reader::DecoderReader::<B, R>::read"},
+        "_push_byte": {"transport::decode::Decoder::<B>::push_byte", "transport::decode::DecodeIterator::<B, I>::next"} | rd_entries,
         "push_byte": {"transport::decode::decode"},
         "finalize": {"transport::decode::decode", "transport::decode::DecodeIterator::<B, I>::next"},
-        "reset": {"transport::decoder_reader::DecoderReader::<B, R>::read"},
+        "reset": set(rd_entries),
     }
     all_callers = {}
     for b2 in F.bodies.values():
@@ -502,6 +408,8 @@ def check_generic(ctx, F):
         if d in exp:
             return True
         b2 = F.bodies.get(d)
+        if b2 is not None and b2.get("kind") == "Closure" and b2.get("closure_of") and d not in seen:
+            return covered(b2["closure_of"], exp, seen + (d,))     # a closure runs as part of the function it is written in
         if b2 is None or d in seen or b2["vis"] == "pub" or b2.get("impl_trait"):
             return False
         cs = all_callers.get(d, set())
